@@ -7,3 +7,5 @@ open Just.C10
 #print axioms format_idempotent
 #print axioms group_keeps_parentheses
 #print axioms parse_print_in_context
+#print axioms parsed_is_wellformed
+#print axioms format_of_any_source
